@@ -401,7 +401,13 @@ func divisorNonZero(fn *ssa.Function, bo *ssa.BinOp) bool {
 			for _, in := range b.Instrs {
 				switch x := in.(type) {
 				case *ssa.BinOp:
-					if (x.Op == token.EQL || x.Op == token.NEQ || x.Op == token.GTR || x.Op == token.LEQ) && (x.X == div || an.AccessPath(x.X) == an.AccessPath(div) && an.AccessPath(div) != "") {
+					isDiv := func(v ssa.Value) bool {
+						return v == div || an.AccessPath(v) == an.AccessPath(div) && an.AccessPath(div) != ""
+					}
+					// div == 0, div != 0, div > 0, div <= 0 and the same with the operands mirrored
+					direct := (x.Op == token.EQL || x.Op == token.NEQ || x.Op == token.GTR || x.Op == token.LEQ) && isDiv(x.X)
+					mirrored := (x.Op == token.EQL || x.Op == token.NEQ || x.Op == token.LSS || x.Op == token.GEQ) && isDiv(x.Y)
+					if direct || mirrored {
 						if at == nil || x.Block().Dominates(at.Block()) {
 							return true
 						}
